@@ -132,7 +132,7 @@ def parse_tlc_output(text, res):
 
 
 def tlc(work, module, cfg, workers=None, timeout=3600, env=None, extra=None,
-        coverage=False, simulate=None, seed=None, depth=None, deque=False):
+        coverage=False, simulate=None, seed=None, depth=None, deque=False, heap='8g'):
     """Run TLC on work/<module>.tla with config text `cfg`. Returns TLCResult."""
     cfgname = '%s__run.cfg' % module
     work.write(cfgname, cfg)
@@ -152,7 +152,7 @@ def tlc(work, module, cfg, workers=None, timeout=3600, env=None, extra=None,
     cmd += ['%s.tla' % module]
     e = dict(os.environ)
     e.pop('JAVA_TOOL_OPTIONS', None)
-    jopts = ['-Xss16m']
+    jopts = ['-Xss16m', '-Xmx' + heap]
     if deque:
         jopts.append('-Dtlc2.tool.queue.IStateQueue=StateDeque')
     e['JAVA_TOOL_OPTIONS'] = ' '.join(jopts)
@@ -234,7 +234,7 @@ def validate_traces(work, module, cases, header=None, cfg=None, chunk=1500,
                 if g.endswith('.tla') and not os.path.exists(sub.path(g)):
                     os.symlink(work.path(g), sub.path(g))
             r = tlc(sub, module, cfg, workers=workers, timeout=timeout,
-                    env={'TRACE_FILE': fn})
+                    env={'TRACE_FILE': fn}, heap='5g')
             return r
         finally:
             sub.close()
